@@ -394,6 +394,25 @@ def apiSeq : WState → List (List Call) → WState × List Bool
     let rs := apiSeq r.1 cs
     (rs.1, r.2 :: rs.2)
 
+/-- a writer with a `failed` flag (arrow-ipc `StreamWriter`/`FileWriter`, arrow-json `Writer`,
+arrow-avro `Writer`, parquet `AsyncArrowWriter`): every API call that runs records a failure in
+the flag (`poisoned' = poisoned || !ok`); a *guarded* call (`check_not_failed()?` / `if
+self.failed { return Err }` at its start) refuses without touching the sink.  Which calls are
+guarded differs per writer (IPC/Avro: `write` and `finish`; JSON: `finish`; async Parquet:
+every `do_write`, hence `flush`/`finish`/`close`), `finish` is guarded in all of them. -/
+def apiCallG (guarded : Bool) (st : WState) (cs : List Call) : WState × Bool :=
+  if guarded && st.poisoned then (st, false)
+  else
+    match runCalls st.sched st.acc cs with
+    | (s', acc', ok) => (⟨s', acc', st.poisoned || !ok⟩, ok)
+
+def apiSeqG : WState → List (Bool × List Call) → WState × List Bool
+  | st, [] => (st, [])
+  | st, (g, c) :: cs =>
+    let r := apiCallG g st c
+    let rs := apiSeqG r.1 cs
+    (rs.1, r.2 :: rs.2)
+
 /-- all bytes of a session's calls, in order -/
 def sessionOutput (ops : List (List Call)) : Bytes := output ops.flatten
 
